@@ -7,8 +7,7 @@ HARNESS_TEST = "TestC17"
 COQ_MODEL = ["C17/Check.v", "Gen/C17Facts.v", "C17/Current.v"]
 COQ_PROOF_DEPS = ["C17/Proofs.v"]
 COQ_OBLIG = ["C17/Property.v", "Gen/C17Oblig.v"]
-CASES_HEADER = ("Require Import Nib.C17.AnteFacts Nib.C17.MsgTree Nib.C17.Model Nib.C17.Spec Nib.C17.Check Nib.C17.Current.\n"
-                "Local Open Scope Z_scope.")
+CASES_HEADER = "Require Import Nib.C17.AnteFacts Nib.C17.MsgTree Nib.C17.Model Nib.C17.Spec Nib.C17.Check Nib.C17.Current."
 CASE_TYPE = "case"
 MISMATCH_FN = "mismatch current_cfg"
 VIOLATES_FN = "violates"
@@ -31,7 +30,7 @@ TRUSTED = [
 
 
 def _z(s):
-    return "(%s)" % int(s)
+    return "(%d)%%Z" % int(s)
 
 
 KINDS = {"create": "MKLeaf K_CREATE", "edit": "MKLeaf K_EDIT", "grant": "MKLeaf K_GRANT", "send": "MKLeaf K_SEND",
@@ -65,7 +64,7 @@ EXT = {"": "NoExt", "evm": "EvmExt", "other": "OtherExt"}
 def to_coq_case(rec):
     items = []
     for tx, ob in zip(rec["input"]["txs"], rec["obs"]):
-        t = "{| t_dt := %d; t_ext := %s; t_signer := %d; t_msgs := [%s] |}" % (
+        t = "{| t_dt := (%d)%%Z; t_ext := %s; t_signer := %d; t_msgs := [%s] |}" % (
             tx["dt"], EXT[tx.get("ext", "")], tx["signer"], "; ".join("(%s)" % _tree(m) for m in tx["msgs"]))
         vs = "; ".join("{| o_id := %d; o_rate := %s; o_max := %s; o_chg := %s |}" % (v["id"], _z(v["rate"]), _z(v["max"]), _z(v["chg"]))
                        for v in ob["vals"])
